@@ -1,6 +1,6 @@
 /- line-protocol driver of the C17 index-map model: one request per line, one answer per line.
    policy syntax (prefix): S | V n s | M n m s | X stride <pol> <pol>
-   requests:  idx <pol> ; i j ..   min <pol>   size <pol>   contig <pol>   arity <pol>
+   requests:  idx <pol> ; i j ..   min <pol>   size <pol>   contig <pol>   arity <pol>   wf <pol>
               varr <stride> <pol> ; i l..      sco <stride> <pol> ; l..
               row m i j ; k     col m i j ; k     sub m i j ; r c -/
 import TfelVerif.C17.Model
@@ -38,6 +38,7 @@ def answer (line : String) : String :=
     | "min" :: p => (pol1 p).map fun p => toString p.minSize
     | "size" :: p => (pol1 p).map fun p => toString p.size
     | "arity" :: p => (pol1 p).map fun p => toString p.arity
+    | "wf" :: p => (pol1 p).map fun p => if p.wfb then "1" else "0"
     | "contig" :: p => (pol1 p).map fun p => if p.contiguous then "1" else "0"
     | "varr" :: st :: p => do
         let st ← st.toNat?
